@@ -102,6 +102,10 @@ def cases(tier, seed):
     for func, fn in (("Exp", "exp(g)"), ("Cos", "cos(g)"), ("Sin", "sin(g)")):
         for exact in (True, False):
             out.append({"input": {"kind": "program_condfunc", "func": func, "fn": fn, "exact": exact}})
+            # ... next to a second, independently conditioned assignment to the same variable (before / after it), and as one
+            # branch of an if/else whose other branch rescales the variable
+            for shape in ("after_poly", "after_func", "before_poly", "ifelse"):
+                out.append({"input": {"kind": "program_condfunc", "func": func, "fn": fn, "exact": exact, "shape": shape}})
     return out
 
 
@@ -392,7 +396,38 @@ def run_program_condfunc(inp, stats, res):
     def ex(n):
         return sum(ey(i, m1) for i in range(1, n + 1))
 
-    return _solve_and_compare(text, [("y", lambda n: ey(n, m1)), ("y**2", lambda n: ey(n, m2)), ("x", ex)], stats, res, inp["exact"])
+    shape = inp.get("shape")
+    if not shape:
+        return _solve_and_compare(text, [("y", lambda n: ey(n, m1)), ("y**2", lambda n: ey(n, m2)), ("x", ex)], stats, res, inp["exact"])
+    # E(y^k)_{n+1} = A_k + B_k E(y^k)_n
+    s1 = dists.numeric_expect("Normal", [F(0), F(1)], lambda g: mp.sin(g))
+    s2 = dists.numeric_expect("Normal", [F(0), F(1)], lambda g: mp.sin(g) ** 2)
+    m = {1: m1, 2: m2}
+    half, quarter = mp.mpf(1) / 2, mp.mpf(1) / 4
+    if shape == "after_poly":
+        body = "    if c == 1:\n        y = 5\n    end\n    if d == 1:\n        y = %s(g)\n    end\n" % inp["func"]
+        AB = {k: (half * m[k] + quarter * 5 ** k, quarter) for k in (1, 2)}
+    elif shape == "after_func":
+        body = "    if c == 1:\n        y = Sin(g)\n    end\n    if d == 1:\n        y = %s(g)\n    end\n" % inp["func"]
+        AB = {k: (half * m[k] + quarter * {1: s1, 2: s2}[k], quarter) for k in (1, 2)}
+    elif shape == "before_poly":
+        body = "    if d == 1:\n        y = %s(g)\n    end\n    if c == 1:\n        y = 5\n    end\n" % inp["func"]
+        AB = {k: (half * 5 ** k + quarter * m[k], quarter) for k in (1, 2)}
+    else:
+        body = "    if c == 1:\n        y = %s(g)\n    else:\n        y = y/2\n    end\n" % inp["func"]
+        AB = {k: (half * m[k], half / 2 ** k) for k in (1, 2)}
+    text = ("c = 0\nd = 0\ng = 0\ny = 1\nx = 0\nwhile true:\n    c = Bernoulli(1/2)\n    d = Bernoulli(1/2)\n    g = Normal(0, 1)\n" + body +
+            "    x = x + y\nend\n")
+    res["sample"] = {"program": text}
+
+    def eyk(n, k):
+        v = mp.mpf(1)
+        for _ in range(n):
+            v = AB[k][0] + AB[k][1] * v
+        return v
+
+    return _solve_and_compare(text, [("y", lambda n: eyk(n, 1)), ("y**2", lambda n: eyk(n, 2)),
+                                     ("x", lambda n: sum(eyk(i, 1) for i in range(1, n + 1)))], stats, res, inp["exact"])
 
 
 def run_program_lag(inp, stats, res):
